@@ -40,6 +40,8 @@ type solver struct {
 	logf     *os.File // optional query log (SMT-LIB transcript)
 	timeoutMs int
 	onAssert  func(t *term)
+	logged    int
+	logLimit  int
 }
 
 type solverStats struct {
@@ -219,6 +221,14 @@ func (s *solver) check(extra *term, wantModel bool) (solverResult, model) {
 	}
 	if sawErr {
 		res = resUnknown
+	}
+	if s.logf != nil {
+		s.logf.WriteString("; RESULT " + res.String() + "\n")
+		s.logged++
+		if s.logLimit > 0 && s.logged >= s.logLimit {
+			s.logf.Close()
+			s.logf = nil
+		}
 	}
 	switch res {
 	case resSat:
